@@ -590,15 +590,22 @@ func (d *Decoder) newCoderAndShards() (rsec16.Coder, [][]byte, error) {
 		return rsec16.Coder{}, nil, errors.New("no file integrity info")
 	}
 
-	if len(d.parityShards) == 0 {
-		return rsec16.Coder{}, nil, errors.New("no parity shards")
-	}
-
 	var dataShards [][]byte
 	for _, info := range d.fileIntegrityInfos {
 		for _, shardInfo := range info.shardInfos {
 			dataShards = append(dataShards, shardInfo.data)
 		}
+	}
+
+	if len(d.parityShards) == 0 {
+		for _, dataShard := range dataShards {
+			if dataShard == nil {
+				return rsec16.Coder{}, nil, rsec16.NotEnoughParityShardsError{}
+			}
+		}
+		// No data shards are missing, so there's nothing to
+		// reconstruct and no coder is needed.
+		return rsec16.Coder{}, dataShards, nil
 	}
 	coder, err := rsec16.NewCoderPAR2Vandermonde(len(dataShards), len(d.parityShards), d.numGoroutines)
 	if err != nil {
@@ -699,12 +706,14 @@ func (d *Decoder) Repair(checkParity bool) ([]string, error) {
 		return nil, err
 	}
 
-	err = coder.ReconstructData(dataShards, d.parityShards)
-	if err != nil {
-		return nil, err
+	if len(d.parityShards) > 0 {
+		err = coder.ReconstructData(dataShards, d.parityShards)
+		if err != nil {
+			return nil, err
+		}
 	}
 
-	if checkParity {
+	if checkParity && len(d.parityShards) > 0 {
 		computedParityShards := coder.GenerateParity(dataShards)
 		for i, shard := range d.parityShards {
 			if len(shard) == 0 {
